@@ -856,35 +856,30 @@ def run(tier, seed, only=None):
             return K.Obligation(name, [pre], defines=defs, unwind=n + 2, unwindset=_unwindset(opi, n, e), timeout=cap, includes=[work], mem_gb=10,
                                 meta={"part": "b1", "N": n, "E": e, "op": OPS[opi], "env_op": OPS[eop], "excl_known": excl,
                                       "site": site or "all", "_op": opi, "_eop": eop, "_opt": opt})
-        # finder + proof of the rest at N=2 (all pause points in one query)
+        # N=2: all pause points in one query (the '-excl' twin is added in a second round only where the plain obligation is violated)
         obls.append(pre_ob(2, 1, 0, 0, False, None, 300, False))
-        obls.append(pre_ob(2, 1, 0, 0, True, None, 300, False))
+        us = K29["sites"]["ds_union"]
         if not thorough:
-            # N=3 at the pause sites around the link CAS (load and CAS inside the first updateRoot): lost-update / retry errors
-            us = K29["sites"]["ds_union"]
-            for site in us[-4:-2]:
-                obls.append(pre_ob(3, 1, 0, 0, False, site, 300, False))
+            # N=3 at the pause site directly before the link CAS inside the first updateRoot: lost-update / retry errors
+            obls.append(pre_ob(3, 1, 0, 0, False, us[-3], 300, False))
         if thorough:
             for opi in (0, 1, 2):
                 for eop in (0, 2):
                     if (opi, eop) != (0, 0):
                         obls.append(pre_ob(2, 1, opi, eop, False, None, 400, True))
-            # N=3: one query per static pause site
-            for opi in (0, 1, 2):
-                for eop in (0, 2):
-                    for site in K29["sites"][KFN[opi]]:
-                        obls.append(pre_ob(3, 1, opi, eop, False, site, 400, True))
-            # (b2) abstract environment, known class excluded
+            # N=3, union interrupted by union: one query per static pause site
+            for site in us:
+                obls.append(pre_ob(3, 1, 0, 0, False, site, 400, True))
+            # (b2) abstract environment (ghost invariant asserted on every own CAS)
             rg = os.path.join(work, "uf_rg.c")
-            for n, e, per_site in ((2, 1, False), (2, 2, False), (3, 1, True)):
+            for n, e in ((2, 1), (2, 2)):
                 for opi, opn in enumerate(OPS):
-                    for site in (K29["sites"][KFN[opi]] if per_site else [None]):
-                        name = "rg-excl:%s:N=%d:E=%d:%s" % (opn, n, e, "site=%d" % site if site else "allsites")
-                        obls.append(K.Obligation(name, [rg], defines=["NN=%d" % n, "OP=%d" % opi, "ENV=%d" % e, "EXCL_KNOWN", "MODEL_LINK_RANK=%d" % K29["model_link_rank"]] + (["SITE=%d" % site] if site else []),
-                                                 unwind=n + 2, unwindset=_unwindset(opi, n, e), timeout=400, includes=[work], mem_gb=10,
-                                                 meta={"part": "b2", "N": n, "E": e, "op": opn, "excl_known": True, "site": site or "all", "_op": opi, "_opt": True}))
-            # (c) two native CBMC threads (measured: only find|find finishes; the others are attempted under a short cap)
-            for r1, r2 in ((2, 2), (1, 2), (0, 2), (0, 0)):
+                    name = "rg:%s:N=%d:E=%d:allsites" % (opn, n, e)
+                    obls.append(K.Obligation(name, [rg], defines=["NN=%d" % n, "OP=%d" % opi, "ENV=%d" % e, "MODEL_LINK_RANK=%d" % K29["model_link_rank"]],
+                                             unwind=n + 2, unwindset=_unwindset(opi, n, e), timeout=400, includes=[work], mem_gb=10,
+                                             meta={"part": "b2", "N": n, "E": e, "op": opn, "excl_known": False, "site": "all", "_op": opi, "_opt": True}))
+            # (c) two native CBMC threads (measured: only find|find finishes; union|find is attempted under a short cap and dropped otherwise)
+            for r1, r2 in ((2, 2), (0, 2)):
                 name = "thr:%s|%s:N=2:anyforest" % (OPS[r1], OPS[r2])
                 obls.append(K.Obligation(name, [os.path.join(work, "uf_thr.c")], defines=["NN=2", "R1=%d" % r1, "R2=%d" % r2, "MODEL_LINK_RANK=%d" % K29["model_link_rank"]],
                                          unwind=3, timeout=240, includes=[work], mem_gb=10,
@@ -903,6 +898,11 @@ def run(tier, seed, only=None):
                            o.timeout, o.meta["_opt"])
                 if t.name not in have:
                     twins.append(t)
+        for o in obls:
+            if o.meta["part"] == "b2" and not o.meta["excl_known"] and o.verdict == "violated":
+                t = K.Obligation(o.name.replace("rg:", "rg-excl:"), o.files, defines=o.defines + ["EXCL_KNOWN"], unwind=o.unwind, unwindset=o.unwindset,
+                                 timeout=o.timeout, includes=o.includes, mem_gb=o.mem_gb, meta=dict(o.meta, excl_known=True))
+                twins.append(t)
         if twins:
             K.run_all(twins, jobs=6)
             obls += twins
